@@ -749,3 +749,35 @@ def fam_markers_deep():
 
 
 XE_ALPHABET = [None, {"x": 1}, {"x": 2}, {"env.e0": 1}, {"env.e0": 0}, {"x": 1, "env.e0": 1}]
+
+
+def fam_markers_guarded():
+    """a marker-guarded transition whose target frame has an entry guard: a REFUSED attempt must not reset the mark,
+    so the pending update / change still fires the transition once the guard opens (no new write needed)."""
+    ctxs = ("enter", "exit")
+    for kind in ("updated", "changed"):
+        for inframe in (None, "me"):
+            for by in (None, "mk"):
+                n = (kind, "x", inframe, by, False)
+                frames = [dict(name="A", items=recs("A", ctxs) + [("go", "B", [n])]),
+                          dict(name="B", items=[("let", [E0])] + recs("B", ("benter",) + ctxs) + [("go", "A", [(kind, "x", None, by, False)])])]
+                yield ("markers-guarded/%s/%s/%s" % (kind, inframe, by),
+                       dict(tick=0.125, inits=[("x", 0), ("env.e0", 0)], framers=[dict(name="m", schedule="active", frames=frames)]), dict())
+
+
+def fam_clones_static_and_reared():
+    """frame f1 holds a STATIC insular clone (`aux le as mine`, not razeable) next to run-time reared clones;
+    raze first|last|all in frame f1 must only ever remove reared (razeable) clones."""
+    ctxs = ("enter", "exit", "recur")
+    moots = [moot_counter("mo"), moot_leaf("le")]
+    for nrear in (0, 1, 2):
+        for who in ("first", "last", "all"):
+            for static in ("le", "mo"):
+                f0 = recs("f0", ctxs) + [("put", "enter", 1, "go of framer"), ("put", "enter", 0, "ticks of framer")] + \
+                     [("rear", "enter", "mo", "f1") for i in range(nrear)] + [("go", "f1", [E0])]
+                f1 = recs("f1", ctxs) + [("put", "enter", 0, "total of frame"), ("auxclone", static, "mine"), ("go", "f2", [E1])]
+                f2 = recs("f2", ctxs) + [("raze", "enter", who, "f1"), ("go", "f0", [E0]), ("go", "f1", [E1])]
+                prog = dict(tick=0.125, inits=list(ENV_INITS),
+                            framers=[dict(name="m", schedule="active", frames=[dict(name="f0", items=f0), dict(name="f1", items=f1),
+                                                                             dict(name="f2", items=f2)])] + moots)
+                yield ("clones/static-%s+rear%d/raze-%s" % (static, nrear, who), prog, dict())
